@@ -5,11 +5,15 @@
    of the structural tree alone - primary ids and line numbers, the only header fields in which an
    object and its deepcopy / pickle / re-parsed copy may differ, never reach the text, at any level,
    width or prefix.  Hence a copy that preserves structure prints identically.
+   Also proved: the ONLY field the implementation writes on pre-existing objects during fetch - the scratch
+   mark tmp of source definitions - cannot influence any later fetch: whatever marks earlier calls left
+   behind, a (tracked or untracked) fetch returns the same tree and the same unused list
+   (C17_stale_tmp_marks_cannot_influence_fetch, C17_tracking_does_not_change_the_result).
    What ties the property to the code: the C17 stream's write monitor (only the scratch mark 'tmp'
    may be written on pre-existing objects), snapshots of every long-lived object after every call of
    random call histories, repeated calls compared, identity checks on copies. *)
 From Coq Require Import List Ascii String ZArith.
-From Phil Require Import Base Tokenizer Tree Parser Show ShowProofs ShowErase.
+From Phil Require Import Base Tokenizer Tree Parser Show ShowProofs ShowErase Vars Choice Fetch FetchBasics FetchTrack.
 Import ListNotations.
 
 Theorem C17_print_depends_on_structure_only_partial : forall l l' prefix expert level width,
@@ -22,6 +26,16 @@ Theorem C17_print_ignores_ids_and_lines_partial : forall l prefix expert level w
   show_objs (map erase_obj l) prefix expert level width = show_objs l prefix expert level width.
 Proof. exact show_objs_erase. Qed.
 Print Assumptions C17_print_ignores_ids_and_lines_partial.
+
+Theorem C17_stale_tmp_marks_cannot_influence_fetch : forall env canon diff marks0 marks0' m srcs,
+  fetch_track_marks env canon diff marks0 m srcs = fetch_track_marks env canon diff marks0' m srcs.
+Proof. exact stale_marks_irrelevant. Qed.
+Print Assumptions C17_stale_tmp_marks_cannot_influence_fetch.
+
+Theorem C17_tracking_does_not_change_the_result : forall env canon diff marks0 m srcs,
+  rmap fst (fetch_track_marks env canon diff marks0 m srcs) = fetch env canon diff m srcs.
+Proof. exact track_result_unchanged. Qed.
+Print Assumptions C17_tracking_does_not_change_the_result.
 
 Example C17_example :
   match parse [] (s_ "a = 1
